@@ -112,7 +112,7 @@ class Worker:
     """One run_in_executor job."""
 
     __slots__ = ('sim', 'wid', 'func', 'args', 'fut', 'done', 'result', 'exc', 'blocked_until',
-                 'steps', 'pt', 'tag', 'started', 'at_seam')
+                 'steps', 'pt', 'tag', 'started', 'at_seam', 'origin')
 
     def __init__(self, sim, wid, func, args, fut):
         self.sim, self.wid, self.func, self.args, self.fut = sim, wid, func, args, fut
@@ -126,6 +126,12 @@ class Worker:
         self.at_seam = None
         self.tag = getattr(func, '__qualname__', None) or getattr(
             getattr(func, 'func', None), '__qualname__', repr(func))
+        # who asked for the job: the qualified name of the coroutine of the submitting task
+        try:
+            t = asyncio.current_task()
+            self.origin = getattr(t.get_coro(), '__qualname__', '') if t is not None else ''
+        except RuntimeError:
+            self.origin = ''
 
     def yield_point(self, tag):
         # Runs on the worker thread: hand the baton back and wait for it.
@@ -150,7 +156,7 @@ class Sim:
         self.preempt = preempt
         self.stall_p = stall_p          # probability that a worker step is followed by a stall
         self.stall_max = 12.0
-        self.stall_boost = None         # (job tag suffix, probability)
+        self.stall_boost = None         # (job tag suffix, probability[, substring of the submitting task's coroutine name])
         self.line_p = line_p            # line-granularity pre-emption probability (0 = off)
         self.loop_seam_p = loop_seam_p  # probability to run a worker step at a loop-thread seam
         self.workers = []
@@ -235,8 +241,11 @@ class Sim:
         if w is not None:
             if self.preempt:
                 p = self.stall_p
-                if self.stall_boost and w.tag.endswith(self.stall_boost[0]):
-                    p = max(p, self.stall_boost[1])      # buggify: this kind of job is slow in this run
+                sb = self.stall_boost
+                if sb and w.tag.endswith(sb[0]) and (len(sb) < 3 or sb[2] in w.origin):
+                    # buggify: this kind of job (optionally: only when asked for by this kind of task) is
+                    # slow in this run
+                    p = max(p, sb[1])
                 if p and tag not in ('fs.read', 'db.get') and self.ch.chance(p):
                     d = self.ch.delay(0.001, self.stall_max)
                     w.blocked_until = self.now + d
